@@ -190,6 +190,15 @@ class EncoderLayout:
             name = self.alias[name]
         return name
 
+    def _concat_of_buffers(self, v):
+        """a packet assembled by concatenation: bytearray((code,)) + encodeLength(..) + varHeader + payload"""
+        def leaves(e):
+            return leaves(e.left) + leaves(e.right) if isinstance(e, ast.BinOp) and isinstance(e.op, ast.Add) else [e]
+        return isinstance(v, ast.BinOp) and isinstance(v.op, ast.Add) and any(
+            (isinstance(x, ast.Name) and self.canon(x.id) in self.bufs) or
+            (isinstance(x, ast.Call) and isinstance(x.func, ast.Name) and (x.func.id in ENC_HELPERS or x.func.id in ("bytearray", "bytes")))
+            for x in leaves(v))
+
     def view_of(self, n):
         """Name of the buffer an expression is a view / copy-conversion of: buf, bytes(buf), str(buf), `str(buf) if PY2 else bytes(buf)`."""
         if isinstance(n, ast.Name):
@@ -423,8 +432,8 @@ class EncoderLayout:
                     self.stored = self.view_of(s.value)
                     self.selfbuf = getattr(self, "selfbuf", {})
                     self.selfbuf[t.attr] = self.stored
-                elif isinstance(s.value, ast.Call) and isinstance(s.value.func, ast.Name) and s.value.func.id == "bytearray" and len(s.value.args) == 1 \
-                        and not s.value.keywords and isinstance(s.value.args[0], (ast.Tuple, ast.List)):
+                elif (isinstance(s.value, ast.Call) and isinstance(s.value.func, ast.Name) and s.value.func.id == "bytearray" and len(s.value.args) == 1
+                        and not s.value.keywords and isinstance(s.value.args[0], (ast.Tuple, ast.List))) or self._concat_of_buffers(s.value):
                     # self.encoded = bytearray((0xE0, 0x00)): the packet written out in the store itself - a buffer without a local name
                     bn = "@self.%s" % t.attr
                     self.bufs[bn] = self.bufexpr(s.value)
@@ -1289,7 +1298,7 @@ class DecoderLayout:
                 # more is asked of the window than it can ever hold: every input is refused
                 T, txt = Lin(1 << 28), "%s (a window %d bytes wide: always)" % (txt, w_)
             self.rejects = getattr(self, "rejects", [])
-            self.rejects.append({"cursor": self.cursors[rej[0]], "T": T, "node": s, "text": txt})
+            self.rejects.append({"cursor": self.cursors[rej[0]], "T": T, "node": s, "text": txt, "guard": tuple(self.guards)})
             return
         if isinstance(s, ast.If):
             g = U(s.test)
